@@ -1,4 +1,6 @@
 import DiffcalcProofs.Props.C01
+import DiffcalcProofs.Props.C07
+import DiffcalcProofs.Props.C11
 /-!
 # C01 — exact soundness of the sample-angle layers (`calc_sample.py`)
 
@@ -1034,6 +1036,1048 @@ theorem remainingSample_sound (s : Samp1 ℝ) (theta alpha qaz : ℝ) (naz : Opt
   | phi v => exact lift _ (sampleConPhi_sound v N_lab N_phi hl hp)
   | eta v => exact lift _ (sampleConEta_sound v N_lab N_phi hl hp hgen.1 hgen.2)
   | chi v => exact lift _ (sampleConChi_sound v N_lab N_phi hl hp hgen.1 hgen.2)
+
+/-! ## `_calc_N`: the orthonormal triad of the scattering direction and the reference direction -/
+
+theorem normalised_eq_unit (v : V3 ℝ) (hv : 0 < V3.norm v) : V3.normalised v = V3.unit v := by
+  unfold V3.normalised
+  simp only [rs_beq, rs_zero, rs_one]
+  rw [if_neg (by simp [hv.ne'])]
+  exact (V3.unit_eq_smul v hv).symm
+
+theorem toRad_toDeg' (x : ℝ) : Scalar.toRad (Scalar.toDeg x) = x := by
+  simp only [Scalar.toRad, Scalar.toDeg, rs_pi, rs_ofNat]
+  have : Real.pi ≠ 0 := Real.pi_ne_zero
+  field_simp
+
+theorem unit_of_norm_one (v : V3 ℝ) (hv : V3.norm v = 1) : V3.unit v = v := by
+  ext <;> simp [V3.unit, hv]
+
+/-- **`_calc_N`, generic branch** (reference direction not within 1e-7 of the scattering direction): the result is a proper rotation whose first
+    column is the unit scattering direction -/
+theorem calcN_generic (Q0 n0 : V3 ℝ) (N : M3 ℝ) (hQ : 0 < V3.norm Q0) (hn : 0 < V3.norm n0)
+    (hx : (1e-7 : ℝ) < V3.norm (V3.cross (V3.unit Q0) (V3.unit n0)))
+    (h : calcN Q0 n0 = .ok N) :
+    IsRot N ∧ (⟨N.a00, N.a10, N.a20⟩ : V3 ℝ) = V3.unit Q0 := by
+  unfold calcN at h
+  simp only [normalised_eq_unit Q0 hQ, normalised_eq_unit n0 hn] at h
+  set Q := V3.unit Q0 with hQdef
+  set n := V3.unit n0 with hndef
+  have hQ1 : V3.norm Q = 1 := V3.norm_unit Q0 hQ
+  have hn1 : V3.norm n = 1 := V3.norm_unit n0 hn
+  have hQd := C20.dot_self_of_norm_one Q hQ1
+  have hnd := C20.dot_self_of_norm_one n hn1
+  obtain ⟨ang, hang, h⟩ := bind_ok_inv h
+  -- the angle returned is `degrees(acos(Q·n))`
+  have hc : V3.dot (V3.smul (1 / V3.norm Q) Q) (V3.smul (1 / V3.norm n) n) = V3.dot Q n := by
+    rw [hQ1, hn1]; simp only [V3.dot, V3.smul]; ring
+  have habs : |V3.dot Q n| ≤ 1 := by have := C11.abs_cos_between Q n; rwa [hc] at this
+  have hangv : ang = Scalar.toDeg (Real.arccos (V3.dot Q n)) := by
+    unfold angleBetween at hang
+    simp only [rs_one, hc] at hang
+    obtain ⟨a, ha, hp⟩ := bind_ok_inv hang
+    obtain ⟨hav, _⟩ := boundAcos_ok habs ha
+    simp only [pure, Except.pure, Except.ok.injEq] at hp
+    rw [← hp, hav]
+  have hlag := C20.lagrange Q n
+  rw [hQd, hnd] at hlag
+  have hnsq := C07.norm_sq (V3.cross Q n)
+  have hsin : Real.sin (Scalar.toRad ang) = V3.norm (V3.cross Q n) := by
+    rw [hangv, toRad_toDeg', Real.sin_arccos]
+    have : 1 - V3.dot Q n ^ 2 = V3.norm (V3.cross Q n) * V3.norm (V3.cross Q n) := by rw [hnsq, hlag]; ring
+    rw [this, Real.sqrt_mul_self (V3.norm_nonneg _)]
+  have hnot : Scalar.isSmall (Scalar.sin (Scalar.toRad ang)) = false := by
+    rw [rs_sin, hsin, isSmall_real]
+    simp only [decide_eq_false_iff_not, not_le]
+    rw [abs_of_nonneg (V3.norm_nonneg _)]; exact hx
+  simp only [hnot, Bool.false_eq_true, if_false, pure, Except.pure, Except.ok.injEq] at h
+  have p3 : 0 < V3.norm (V3.cross Q n) := lt_trans (by norm_num) hx
+  have p2 : 0 < V3.norm (V3.cross (V3.cross Q n) Q) := by
+    have hl := C20.lagrange (V3.cross Q n) Q
+    have hperp : V3.dot (V3.cross Q n) Q = 0 := C20.dot_cross_left_self Q n
+    rw [hQd, hperp] at hl
+    have h2 := C07.norm_sq (V3.cross (V3.cross Q n) Q)
+    have : V3.norm (V3.cross (V3.cross Q n) Q) * V3.norm (V3.cross (V3.cross Q n) Q) = V3.norm (V3.cross Q n) * V3.norm (V3.cross Q n) := by
+      rw [h2, hl, hnsq]; ring
+    have hnn := V3.norm_nonneg (V3.cross (V3.cross Q n) Q)
+    rcases hnn.lt_or_eq with hlt | heq
+    · exact hlt
+    · rw [← heq] at this; nlinarith [mul_pos p3 p3]
+  have hN : N = C07.triadMat Q n := by
+    rw [← h, normalised_eq_unit _ p2, normalised_eq_unit _ p3]
+    unfold C07.triadMat
+    rw [unit_of_norm_one Q hQ1]
+  have hrot := C07.triadMat_isRot Q n (by rw [hQ1]; norm_num) p2 p3
+  refine ⟨hN ▸ hrot, ?_⟩
+  rw [hN]
+  simp only [C07.triadMat, M3.ofCols]
+  rw [unit_of_norm_one Q hQ1]
+
+/-- **eta + phi given** (`__calc_sample_con_eta_phi`, after the sign repair) -/
+theorem sampleConEtaPhi_sound (eta phi qaz theta : ℝ) (N : M3 ℝ) (hN : N.a00 ^ 2 + N.a10 ^ 2 + N.a20 ^ 2 = 1)
+    (hce : Real.cos eta ≠ 0)
+    (hrho : -(Real.sin theta) ≠ 0 ∨ Real.cos theta * Real.cos qaz ≠ 0)
+    (hclip : |(Real.sin qaz * Real.cos theta / Real.cos eta - (N.a10 * Real.cos phi - N.a00 * Real.sin phi) * Real.tan eta) /
+              Scalar.hypot N.a20 (N.a00 * Real.cos phi + N.a10 * Real.sin phi)| ≤ 1)
+    (hgen : Scalar.isSmall (Real.arccos ((Real.sin qaz * Real.cos theta / Real.cos eta - (N.a10 * Real.cos phi - N.a00 * Real.sin phi) * Real.tan eta) /
+              Scalar.hypot N.a20 (N.a00 * Real.cos phi + N.a10 * Real.sin phi))) = false) :
+    AllOk (SampleSpec ⟨N.a00, N.a10, N.a20⟩ theta qaz) (sampleConEtaPhi eta phi qaz theta N) := by
+  unfold sampleConEtaPhi
+  simp only [rs_cos, rs_sin, rs_atan2, rs_tan]
+  set X := N.a20 with hXdef
+  set Y := N.a00 * Real.cos phi + N.a10 * Real.sin phi with hYdef
+  set b' := N.a10 * Real.cos phi - N.a00 * Real.sin phi with hbdef
+  split
+  · exact allOk_error _
+  · rename_i hXY
+    have hr0 : Y ≠ 0 ∨ X ≠ 0 := by
+      by_contra hc; push_neg at hc
+      apply hXY; simp [hc.1, hc.2, isSmall_real]; norm_num
+    have hr := hypot_pos_of Y X hr0
+    have hr2 := hypot_sq Y X
+    have hhy : Scalar.hypot X Y = Scalar.hypot Y X := by simp only [Scalar.hypot, rs_sqrt]; congr 1; ring
+    rw [hhy] at hclip hgen ⊢
+    set r := Scalar.hypot Y X with hrdef
+    apply allOk_tryAssert
+    intro c hc
+    obtain ⟨hcv, hcos⟩ := boundAcos_ok hclip hc
+    rw [← hcv] at hgen
+    rw [if_neg (by rw [hgen]; simp)]
+    apply allOk_ok
+    intro t ht
+    obtain ⟨chi, hchi, rfl⟩ := List.mem_map.mp ht
+    simp only [List.mem_cons, List.not_mem_nil, or_false] at hchi
+    have hchi' : chi = c + atan2R X Y ∨ chi = -c + atan2R X Y := by
+      rcases hchi with rfl | rfl
+      · left; ring
+      · right; ring
+    have ha := acos_roots Y X r c chi hr hr2 hchi'
+    rw [hcos] at ha
+    have hrne := hr.ne'
+    -- x-equation: (Y cos χ + X sin χ) cos η + b' sin η = q_x
+    have hx : (Y * Real.cos chi + X * Real.sin chi) * Real.cos eta + b' * Real.sin eta = Real.sin qaz * Real.cos theta := by
+      rw [ha, Real.tan_eq_sin_div_cos]; field_simp; ring
+    unfold SampleSpec
+    simp only []
+    set A := Y * Real.sin chi - X * Real.cos chi with hAdef
+    set B := -X * Real.sin chi * Real.sin eta - Real.cos chi * Real.sin eta * Y - Real.cos eta * (N.a00 * Real.sin phi - N.a10 * Real.cos phi) with hBdef
+    have hBv : B = -(Y * Real.cos chi + X * Real.sin chi) * Real.sin eta + b' * Real.cos eta := by rw [hBdef, hbdef]; ring
+    -- lengths
+    have hp := Real.sin_sq_add_cos_sq phi
+    have hxx := Real.sin_sq_add_cos_sq chi
+    have hee := Real.sin_sq_add_cos_sq eta
+    have hq := qDir_unit theta qaz
+    simp only [qDir] at hq
+    have hYb : Y ^ 2 + b' ^ 2 = N.a00 ^ 2 + N.a10 ^ 2 := by rw [hYdef, hbdef]; linear_combination (N.a00 ^ 2 + N.a10 ^ 2) * hp
+    have hAB : B ^ 2 + A ^ 2 = Scalar.hypot (-(Real.sin theta)) (Real.cos theta * Real.cos qaz) ^ 2 := by
+      rw [← hypot_sq]
+      have e1 : (Y * Real.cos chi + X * Real.sin chi) ^ 2 + A ^ 2 = Y ^ 2 + X ^ 2 := by rw [hAdef]; linear_combination (Y ^ 2 + X ^ 2) * hxx
+      have e2 : ((Y * Real.cos chi + X * Real.sin chi) * Real.cos eta + b' * Real.sin eta) ^ 2 + B ^ 2 = (Y * Real.cos chi + X * Real.sin chi) ^ 2 + b' ^ 2 := by
+        rw [hBv]; linear_combination ((Y * Real.cos chi + X * Real.sin chi) ^ 2 + b' ^ 2) * hee
+      rw [hx] at e2
+      linear_combination e1 + e2 + hYb + hN - hq
+    have hrho' := hypot_pos_of _ _ hrho
+    have hrho2 := hypot_sq (-(Real.sin theta)) (Real.cos theta * Real.cos qaz)
+    set rho := Scalar.hypot (-(Real.sin theta)) (Real.cos theta * Real.cos qaz) with hrhodef
+    obtain ⟨hck, hsk⟩ := atan2_cs (-(Real.sin theta)) (Real.cos theta * Real.cos qaz) rho hrho' hrho2
+    obtain ⟨hcks, hsks⟩ := atan2_cs B A rho hrho' hAB
+    have hrhone := hrho'.ne'
+    have hkk := Real.sin_sq_add_cos_sq (atan2R (Real.cos theta * Real.cos qaz) (-(Real.sin theta)))
+    apply sampleSpec_of_mid
+    generalize hκ : atan2R (Real.cos theta * Real.cos qaz) (-(Real.sin theta)) = κ at hck hsk hkk ⊢
+    generalize hks : atan2R A B = ks at hcks hsks ⊢
+    have hcm := Real.cos_add κ ks
+    have hsm := Real.sin_add κ ks
+    generalize κ + ks = μ at hcm hsm ⊢
+    have hqy : -(Real.sin theta) = rho * Real.cos κ := by rw [hck]; field_simp
+    have hqz : Real.cos theta * Real.cos qaz = rho * Real.sin κ := by rw [hsk]; field_simp
+    have hBc : B = rho * Real.cos ks := by rw [hcks]; field_simp
+    have hAs : A = rho * Real.sin ks := by rw [hsks]; field_simp
+    rw [hBv] at hBc
+    rw [hAdef] at hAs
+    rw [hYdef, hbdef] at hx hBc
+    rw [hYdef] at hAs
+    ext
+    · simp only [M3.mulVec, M3.mul, M3.transpose, rotX, rotZ, rotY, qDir, rs_cos, rs_sin, rs_one, rs_zero, Real.cos_neg, Real.sin_neg]
+      linear_combination hx
+    · simp only [M3.mulVec, M3.mul, M3.transpose, rotX, rotZ, rotY, qDir, rs_cos, rs_sin, rs_one, rs_zero, Real.cos_neg, Real.sin_neg]
+      linear_combination hBc - Real.cos μ * hqy - Real.sin μ * hqz - (rho * Real.cos κ) * hcm - (rho * Real.sin κ) * hsm - (rho * Real.cos ks) * hkk
+    · simp only [M3.mulVec, M3.mul, M3.transpose, rotX, rotZ, rotY, qDir, rs_cos, rs_sin, rs_one, rs_zero, Real.cos_neg, Real.sin_neg]
+      linear_combination (-1 : ℝ) * hAs + Real.sin μ * hqy - Real.cos μ * hqz + (rho * Real.cos κ) * hsm - (rho * Real.sin κ) * hcm + (rho * Real.sin ks) * hkk
+
+theorem sign_pos_of (x : ℝ) (h : (1e-7 : ℝ) < x) : (Scalar.sign x : ℝ) = 1 := by
+  unfold Scalar.sign
+  have h1 : Scalar.isSmall x = false := by
+    rw [isSmall_real]; simp only [decide_eq_false_iff_not, not_le]; rw [abs_of_pos (by linarith)]; exact h
+  have h2 : Scalar.lt (Scalar.zero : ℝ) x = true := by simp only [rs_lt, rs_zero, decide_eq_true_eq]; linarith
+  rw [if_neg (by simp [h1]), if_pos h2, rs_one]
+
+theorem sign_neg_of (x : ℝ) (h : x < -(1e-7 : ℝ)) : (Scalar.sign x : ℝ) = -1 := by
+  unfold Scalar.sign
+  have h1 : Scalar.isSmall x = false := by
+    rw [isSmall_real]; simp only [decide_eq_false_iff_not, not_le]; rw [abs_of_neg (by linarith)]; linarith
+  have h2 : Scalar.lt (Scalar.zero : ℝ) x = false := by simp only [rs_lt, rs_zero, decide_eq_false_iff_not, not_lt]; linarith
+  rw [if_neg (by rw [h1]; simp), if_neg (by rw [h2]; simp), rs_one]
+
+/-- **eta + chi given** (`__calc_sample_con_eta_chi`) -/
+theorem sampleConEtaChi_sound (eta chi qaz theta : ℝ) (N : M3 ℝ) (hN : N.a00 ^ 2 + N.a10 ^ 2 + N.a20 ^ 2 = 1)
+    (hrho : (1e-7 : ℝ) < Real.sin theta ^ 2 + (Real.cos qaz * Real.cos theta) ^ 2)
+    (hclip : |(Real.cos theta * Real.sin qaz - N.a20 * Real.cos eta * Real.sin chi) /
+              Scalar.hypot (N.a10 * Real.cos chi * Real.cos eta - N.a00 * Real.sin eta) (N.a00 * Real.cos chi * Real.cos eta + N.a10 * Real.sin eta)| ≤ 1)
+    (hgen : Scalar.isSmall (Real.arccos ((Real.cos theta * Real.sin qaz - N.a20 * Real.cos eta * Real.sin chi) /
+              Scalar.hypot (N.a10 * Real.cos chi * Real.cos eta - N.a00 * Real.sin eta) (N.a00 * Real.cos chi * Real.cos eta + N.a10 * Real.sin eta))) = false) :
+    AllOk (SampleSpec ⟨N.a00, N.a10, N.a20⟩ theta qaz) (sampleConEtaChi eta chi qaz theta N) := by
+  unfold sampleConEtaChi
+  simp only [rs_cos, rs_sin, rs_atan2]
+  set A := N.a10 * Real.cos chi * Real.cos eta - N.a00 * Real.sin eta with hAdef
+  set B := N.a00 * Real.cos chi * Real.cos eta + N.a10 * Real.sin eta with hBdef
+  split
+  · exact allOk_error _
+  · rename_i hAB
+    have hr0 : B ≠ 0 ∨ A ≠ 0 := by
+      by_contra hc; push_neg at hc
+      apply hAB; simp [hc.1, hc.2, isSmall_real]; norm_num
+    have hr := hypot_pos_of B A hr0
+    have hr2 := hypot_sq B A
+    have hhy : Scalar.hypot A B = Scalar.hypot B A := by simp only [Scalar.hypot, rs_sqrt]; congr 1; ring
+    rw [hhy] at hclip hgen ⊢
+    set r := Scalar.hypot B A with hrdef
+    apply allOk_tryAssert
+    intro c hc
+    obtain ⟨hcv, hcos⟩ := boundAcos_ok hclip hc
+    rw [← hcv] at hgen
+    rw [if_neg (by rw [hgen]; simp)]
+    apply allOk_forM'
+    intro phi hphi
+    simp only [List.mem_cons, List.not_mem_nil, or_false] at hphi
+    have ha := acos_roots B A r c phi hr hr2 hphi
+    rw [hcos] at ha
+    have hrne := hr.ne'
+    have hx : B * Real.cos phi + A * Real.sin phi + N.a20 * Real.cos eta * Real.sin chi = Real.cos theta * Real.sin qaz := by
+      rw [ha]; field_simp; ring
+    -- y and z components of ETA·CHI·PHI·h
+    set Yv := -N.a20 * Real.sin chi * Real.sin eta - (Real.cos chi * Real.cos phi * Real.sin eta + Real.cos eta * Real.sin phi) * N.a00
+              - (Real.cos chi * Real.sin eta * Real.sin phi - Real.cos eta * Real.cos phi) * N.a10 with hYv
+    set Zv := -N.a00 * Real.cos phi * Real.sin chi - N.a10 * Real.sin chi * Real.sin phi + N.a20 * Real.cos chi with hZv
+    have hA10 : N.a00 * Real.cos phi * Real.sin chi + N.a10 * Real.sin chi * Real.sin phi - N.a20 * Real.cos chi = -Zv := by rw [hZv]; ring
+    rw [hA10]
+    have hp := Real.sin_sq_add_cos_sq phi
+    have hxx := Real.sin_sq_add_cos_sq chi
+    have hee := Real.sin_sq_add_cos_sq eta
+    have hq := qDir_unit theta qaz
+    simp only [qDir] at hq
+    have hlen : Yv ^ 2 + Zv ^ 2 = Real.sin theta ^ 2 + (Real.cos qaz * Real.cos theta) ^ 2 := by
+      have e : (B * Real.cos phi + A * Real.sin phi + N.a20 * Real.cos eta * Real.sin chi) ^ 2 + Yv ^ 2 + Zv ^ 2 = N.a00 ^ 2 + N.a10 ^ 2 + N.a20 ^ 2 := by
+        -- (x, Yv, Zv) is the rotation ETA·CHI·PHI applied to h
+        have hM : IsRot (ecp eta chi phi) := IsRot.mul (IsRot.mul (isRot_rotZ _) (isRot_rotY _)) (isRot_rotZ _)
+        have hn := C08.norm_rot (ecp eta chi phi) hM ⟨N.a00, N.a10, N.a20⟩
+        have h1 := C07.norm_sq (M3.mulVec (ecp eta chi phi) ⟨N.a00, N.a10, N.a20⟩)
+        have h2 := C07.norm_sq (⟨N.a00, N.a10, N.a20⟩ : V3 ℝ)
+        rw [hn, h2] at h1
+        rw [ecp_entries] at h1
+        simp only [V3.dot, M3.mulVec] at h1
+        rw [hYv, hZv, hAdef, hBdef]
+        linear_combination (-1 : ℝ) * h1
+      rw [hx] at e
+      linear_combination e + hN - hq
+    have hs1 : (Scalar.sign (-Zv * Zv - Yv * Yv) : ℝ) = -1 :=
+      sign_neg_of _ (by rw [show -Zv * Zv - Yv * Yv = -(Yv ^ 2 + Zv ^ 2) by ring, hlen]; linarith)
+    have hs2 : (Scalar.sign (Yv * Yv - Zv * -Zv) : ℝ) = 1 :=
+      sign_pos_of _ (by rw [show Yv * Yv - Zv * -Zv = Yv ^ 2 + Zv ^ 2 by ring, hlen]; linarith)
+    simp only [hs1, hs2]
+    split
+    · exact allOk_error _
+    · apply allOk_ok
+      intro t ht
+      simp only [List.mem_singleton] at ht
+      subst ht
+      unfold SampleSpec
+      simp only []
+      have hD : (-(Real.sin theta)) ^ 2 + (Real.cos qaz * Real.cos theta) ^ 2 = Yv ^ 2 + Zv ^ 2 := by rw [hlen]; ring
+      obtain ⟨m1, m2⟩ := rot_solve (-(Real.sin theta)) (Real.cos qaz * Real.cos theta) Yv Zv hD
+      have e1 : Yv * (Real.cos qaz * Real.cos theta) - Zv * -(Real.sin theta) = (-(Real.sin theta) * Zv - Real.cos qaz * Real.cos theta * Yv) * -1 := by ring
+      have e2 : Yv * -(Real.sin theta) + Zv * (Real.cos qaz * Real.cos theta) = (-(Real.sin theta) * Yv - Real.cos qaz * Real.cos theta * -Zv) * 1 := by ring
+      rw [e1, e2] at m1 m2
+      generalize atan2R ((-(Real.sin theta) * Zv - Real.cos qaz * Real.cos theta * Yv) * -1) ((-(Real.sin theta) * Yv - Real.cos qaz * Real.cos theta * -Zv) * 1) = μ at m1 m2 ⊢
+      apply sampleSpec_of_mid
+      rw [hYv] at m1
+      rw [hZv] at m2
+      rw [hAdef, hBdef] at hx
+      ext
+      · simp only [M3.mulVec, M3.mul, M3.transpose, rotX, rotZ, rotY, qDir, rs_cos, rs_sin, rs_one, rs_zero, Real.cos_neg, Real.sin_neg]
+        linear_combination hx
+      · simp only [M3.mulVec, M3.mul, M3.transpose, rotX, rotZ, rotY, qDir, rs_cos, rs_sin, rs_one, rs_zero, Real.cos_neg, Real.sin_neg]
+        linear_combination (-1 : ℝ) * m1
+      · simp only [M3.mulVec, M3.mul, M3.transpose, rotX, rotZ, rotY, qDir, rs_cos, rs_sin, rs_one, rs_zero, Real.cos_neg, Real.sin_neg]
+        linear_combination (-1 : ℝ) * m2
+
+/-- generic-branch side conditions of the nine detector + two-sample solvers: the `asin`/`acos` argument is not clipped by `bound`, the
+    coincident-root shortcut is not taken, and the divisions are by non-zero quantities -/
+def Samp2DetGeneric (s : Samp2Det ℝ) (N : M3 ℝ) (theta qaz : ℝ) : Prop :=
+  match s with
+  | .muEta mu eta => |(-(outerInv mu eta (qDir theta qaz)).y) / Scalar.hypot N.a00 N.a10| ≤ 1
+  | .omegaBisect _ => True
+  | .muBisect _ => True
+  | .etaBisect _ => True
+  | .chiPhi chi phi => (Real.sin theta ≠ 0 ∨ -(Real.cos qaz) * Real.cos theta ≠ 0) ∧
+      |(inner chi phi ⟨N.a00, N.a10, N.a20⟩).z / Real.sqrt (Real.cos qaz * Real.cos qaz * (Real.cos theta * Real.cos theta) + Real.sin theta * Real.sin theta)| ≤ 1
+  | .muPhi mu phi => (N.a00 * Real.cos phi + N.a10 * Real.sin phi ≠ 0 ∨ N.a20 ≠ 0) ∧
+      |(-(M3.mulVec (M3.transpose (rotX mu)) (qDir theta qaz)).z) / Scalar.hypot (N.a00 * Real.cos phi + N.a10 * Real.sin phi) N.a20| ≤ 1
+  | .muChi mu chi =>
+      |(N.a20 * Real.cos chi - (Real.cos mu * Real.cos qaz * Real.cos theta + Real.sin mu * Real.sin theta)) / (Real.sin chi * Scalar.hypot N.a10 N.a00)| ≤ 1 ∧
+      Scalar.isSmall (Real.arccos ((N.a20 * Real.cos chi - (Real.cos mu * Real.cos qaz * Real.cos theta + Real.sin mu * Real.sin theta)) /
+        (Real.sin chi * Scalar.hypot N.a10 N.a00))) = false
+  | .etaPhi eta phi => Real.cos eta ≠ 0 ∧ (-(Real.sin theta) ≠ 0 ∨ Real.cos theta * Real.cos qaz ≠ 0) ∧
+      |(Real.sin qaz * Real.cos theta / Real.cos eta - (N.a10 * Real.cos phi - N.a00 * Real.sin phi) * Real.tan eta) /
+        Scalar.hypot N.a20 (N.a00 * Real.cos phi + N.a10 * Real.sin phi)| ≤ 1 ∧
+      Scalar.isSmall (Real.arccos ((Real.sin qaz * Real.cos theta / Real.cos eta - (N.a10 * Real.cos phi - N.a00 * Real.sin phi) * Real.tan eta) /
+        Scalar.hypot N.a20 (N.a00 * Real.cos phi + N.a10 * Real.sin phi))) = false
+  | .etaChi eta chi => (1e-7 : ℝ) < Real.sin theta ^ 2 + (Real.cos qaz * Real.cos theta) ^ 2 ∧
+      |(Real.cos theta * Real.sin qaz - N.a20 * Real.cos eta * Real.sin chi) /
+        Scalar.hypot (N.a10 * Real.cos chi * Real.cos eta - N.a00 * Real.sin eta) (N.a00 * Real.cos chi * Real.cos eta + N.a10 * Real.sin eta)| ≤ 1 ∧
+      Scalar.isSmall (Real.arccos ((Real.cos theta * Real.sin qaz - N.a20 * Real.cos eta * Real.sin chi) /
+        Scalar.hypot (N.a10 * Real.cos chi * Real.cos eta - N.a00 * Real.sin eta) (N.a00 * Real.cos chi * Real.cos eta + N.a10 * Real.sin eta))) = false
+
+/-- **detector + two sample angles, all nine branches** (`_calc_sample_con_two_sample_and_detector`): on the generic branch every returned tuple
+    whose own `asin` argument was not clipped satisfies the sample relation exactly -/
+theorem twoSampleDetector_sound (s : Samp2Det ℝ) (qaz theta : ℝ) (N : M3 ℝ) (hN : N.a00 ^ 2 + N.a10 ^ 2 + N.a20 ^ 2 = 1)
+    (hgen : Samp2DetGeneric s N theta qaz) :
+    AllOk (fun t => ClipMuEta N theta qaz t → SampleSpec ⟨N.a00, N.a10, N.a20⟩ theta qaz t) (twoSampleDetector s qaz theta N) := by
+  have weaken : ∀ m, AllOk (SampleSpec ⟨N.a00, N.a10, N.a20⟩ theta qaz) m →
+      AllOk (fun t => ClipMuEta N theta qaz t → SampleSpec ⟨N.a00, N.a10, N.a20⟩ theta qaz t) m :=
+    fun m hm => allOk_mono hm (fun t ht _ => ht)
+  cases s with
+  | muEta mu eta => exact weaken _ (sampleConMuEta_sound mu eta qaz theta N hN hgen)
+  | omegaBisect om => exact sampleConOmegaBisect_sound om qaz theta N hN
+  | muBisect mu => exact sampleConMuBisect_sound mu qaz theta N hN
+  | etaBisect eta => exact sampleConEtaBisect_sound eta qaz theta N hN
+  | chiPhi chi phi => exact weaken _ (sampleConChiPhi_sound chi phi qaz theta N hN hgen.1 hgen.2)
+  | muPhi mu phi => exact weaken _ (sampleConMuPhi_sound mu phi qaz theta N hN hgen.1 hgen.2)
+  | muChi mu chi => exact weaken _ (sampleConMuChi_sound mu chi qaz theta N hN hgen.1 hgen.2)
+  | etaPhi eta phi => exact weaken _ (sampleConEtaPhi_sound eta phi qaz theta N hN hgen.1 hgen.2.1 hgen.2.2.1 hgen.2.2.2)
+  | etaChi eta chi => exact weaken _ (sampleConEtaChi_sound eta chi qaz theta N hN hgen.1 hgen.2.1 hgen.2.2)
+
+/-! ## reference + two sample angles (`calc_reference.py`): `Z · N_phi · PSIᵀ · THETAᵀ = F(qaz)` -/
+
+/-- `F(qaz) = Ry(qaz − π/2)` -/
+def Fq (qaz : ℝ) : M3 ℝ := ⟨Real.sin qaz, 0, -Real.cos qaz, 0, 1, 0, Real.cos qaz, 0, Real.sin qaz⟩
+
+theorem Fq_eq (qaz : ℝ) : rotY (qaz - Real.pi / 2) = Fq qaz := by
+  have h1 : Real.cos (qaz - Real.pi / 2) = Real.sin qaz := by rw [Real.cos_sub, Real.cos_pi_div_two, Real.sin_pi_div_two]; ring
+  have h2 : Real.sin (qaz - Real.pi / 2) = -Real.cos qaz := by rw [Real.sin_sub, Real.cos_pi_div_two, Real.sin_pi_div_two]; ring
+  ext <;> simp [rotY, Fq, h1, h2]
+
+theorem isRot_Fq (qaz : ℝ) : IsRot (Fq qaz) := by rw [← Fq_eq]; exact isRot_rotY _
+
+/-- the orientation equation of the reference modes: with `V = N_phi·PSIᵀ·THETAᵀ`, `Z·V = F(qaz)` -/
+def RefSpec (Vr : M3 ℝ) (t : RTuple ℝ) : Prop :=
+  M3.mul (C04.Z t.2.2.1 t.2.2.2.1 t.2.2.2.2.1 t.2.2.2.2.2) Vr = Fq t.1
+
+/-- two proper rotations that agree on their third row and second column (crossing entry not ±1) are equal -/
+theorem rot_eq_of_row2_col1 (A B : M3 ℝ) (hA : IsRot A) (hB : IsRot B) (hne : A.a21 ^ 2 ≠ 1)
+    (h20 : A.a20 = B.a20) (h21 : A.a21 = B.a21) (h22 : A.a22 = B.a22) (h01 : A.a01 = B.a01) (h11 : A.a11 = B.a11) : A = B := by
+  have key : ∀ M : M3 ℝ, IsRot M →
+      M.a00 * (1 - M.a21 ^ 2) = M.a11 * M.a22 - M.a21 * M.a01 * M.a20 ∧
+      M.a10 * (1 - M.a21 ^ 2) = -M.a01 * M.a22 - M.a21 * M.a11 * M.a20 ∧
+      M.a12 = M.a01 * M.a20 - M.a00 * M.a21 ∧ M.a02 = M.a10 * M.a21 - M.a11 * M.a20 := by
+    intro M hM
+    have hadj := adj_eq_transpose hM
+    have d00 := congrArg M3.a00 hadj; have d01 := congrArg M3.a01 hadj
+    have d21 := congrArg M3.a21 hadj; have d20 := congrArg M3.a20 hadj
+    simp only [M3.adj, M3.transpose] at d00 d01 d21 d20
+    -- d00 : a11 a22 − a12 a21 = a00 ; d01 : a02 a21 − a01 a22 = a10 ; d21 : a01 a20 − a00 a21 = a12 ; d20 : a10 a21 − a11 a20 = a02
+    refine ⟨?_, ?_, ?_, ?_⟩
+    · linear_combination (-1 : ℝ) * d00 + M.a21 * d21
+    · linear_combination (-1 : ℝ) * d01 - M.a21 * d20
+    · linear_combination (-1 : ℝ) * d21
+    · linear_combination (-1 : ℝ) * d20
+  obtain ⟨a1, a2, a3, a4⟩ := key A hA
+  obtain ⟨b1, b2, b3, b4⟩ := key B hB
+  have hd : (1 - A.a21 ^ 2) ≠ 0 := by intro h; apply hne; linarith
+  simp only [← h20, ← h21, ← h22, ← h01, ← h11] at b1 b2 b3 b4
+  have e00 : A.a00 = B.a00 := mul_right_cancel₀ hd (by rw [a1, b1])
+  have e10 : A.a10 = B.a10 := mul_right_cancel₀ hd (by rw [a2, b2])
+  have e12 : A.a12 = B.a12 := by rw [a3, b3, e00]
+  have e02 : A.a02 = B.a02 := by rw [a4, b4, e10]
+  ext <;> assumption
+
+/-- `ETAᵀ·MUᵀ·F(qaz)` entry by entry -/
+def emf (mu eta qaz : ℝ) : M3 ℝ := M3.mul (M3.mul (M3.transpose (rotZ (-eta))) (M3.transpose (rotX mu))) (Fq qaz)
+
+theorem emf_entries (mu eta qaz : ℝ) : emf mu eta qaz =
+    ⟨Real.cos eta * Real.sin qaz - Real.sin eta * Real.sin mu * Real.cos qaz, -Real.sin eta * Real.cos mu, -Real.cos eta * Real.cos qaz - Real.sin eta * Real.sin mu * Real.sin qaz,
+     Real.sin eta * Real.sin qaz + Real.cos eta * Real.sin mu * Real.cos qaz, Real.cos eta * Real.cos mu, -Real.sin eta * Real.cos qaz + Real.cos eta * Real.sin mu * Real.sin qaz,
+     Real.cos mu * Real.cos qaz, -Real.sin mu, Real.cos mu * Real.sin qaz⟩ := by
+  ext <;> simp only [emf, Fq, M3.mul, M3.transpose, rotX, rotZ, rs_cos, rs_sin, rs_one, rs_zero, Real.cos_neg, Real.sin_neg] <;> ring
+
+theorem isRot_emf (mu eta qaz : ℝ) : IsRot (emf mu eta qaz) :=
+  IsRot.mul (IsRot.mul (C04.isRot_transpose (isRot_rotZ _)) (C04.isRot_transpose (isRot_rotX _))) (isRot_Fq qaz)
+
+/-- if `CHI·PHI·V_ref = ETAᵀ·MUᵀ·F(qaz)` the orientation equation of the reference modes holds -/
+theorem refSpec_of_emf (Vr : M3 ℝ) (qaz psi mu eta chi phi : ℝ)
+    (h : M3.mul (M3.mul (rotY chi) (rotZ (-phi))) Vr = emf mu eta qaz) : RefSpec Vr (qaz, psi, mu, eta, chi, phi) := by
+  unfold RefSpec
+  simp only []
+  have e : C04.Z mu eta chi phi = M3.mul (M3.mul (rotX mu) (rotZ (-eta))) (M3.mul (rotY chi) (rotZ (-phi))) := by
+    simp only [C04.Z, M3.mul_assoc']
+  rw [e, M3.mul_assoc', h, emf, ← M3.mul_assoc', ← M3.mul_assoc']
+  have : M3.mul (M3.mul (M3.mul (rotX mu) (rotZ (-eta))) (M3.transpose (rotZ (-eta)))) (M3.transpose (rotX mu)) = M3.id := by
+    rw [M3.mul_assoc' (rotX mu), rot_mul_transpose (isRot_rotZ _), M3.mul_id, rot_mul_transpose (isRot_rotX _)]
+  rw [this, M3.id_mul]
+
+theorem isSmall_zero : Scalar.isSmall (0 : ℝ) = true := by rw [isSmall_real]; simp; norm_num
+
+theorem sign_small (x : ℝ) (h : Scalar.isSmall x = true) : (Scalar.sign x : ℝ) = 0 := by
+  unfold Scalar.sign; rw [if_pos h, rs_zero]
+
+theorem isRot_Vref (psi theta : ℝ) (N : M3 ℝ) (hN : IsRot N) : IsRot (Vref psi theta N) := by
+  unfold Vref
+  rw [gen_x_rotation, gen_z_rotation]
+  exact IsRot.mul (IsRot.mul hN (C04.isRot_transpose (isRot_rotX _))) (C04.isRot_transpose (isRot_rotZ _))
+
+/-- **reference + chi + phi** (`__calc_sample_ref_con_chi_phi`) -/
+theorem refConChiPhi_sound (chi phi psi theta : ℝ) (N : M3 ℝ) (hN : IsRot N) :
+    AllOk (RefSpec (Vref psi theta N)) (refConChiPhi chi phi psi theta N) := by
+  unfold refConChiPhi
+  simp only []
+  have hVeq : M3.mul (M3.mul (M3.mul (M3.mul (Gen.rot_CHI chi) (Gen.rot_PHI phi)) N) (M3.transpose (Gen.x_rotation psi))) (M3.transpose (Gen.z_rotation (-theta)))
+      = M3.mul (M3.mul (rotY chi) (rotZ (-phi))) (Vref psi theta N) := by
+    simp only [Vref, (gen_rot_senses chi).2.2.1, (gen_rot_senses phi).2.2.2.2.2, M3.mul_assoc']
+  rw [hVeq]
+  set V := M3.mul (M3.mul (rotY chi) (rotZ (-phi))) (Vref psi theta N) with hVdef
+  have hV : IsRot V := IsRot.mul (IsRot.mul (isRot_rotY _) (isRot_rotZ _)) (isRot_Vref psi theta N hN)
+  have hrow : V.a20 ^ 2 + V.a21 ^ 2 + V.a22 ^ 2 = 1 := (isRot_entries_le hV).1
+  have hcol : V.a01 ^ 2 + V.a11 ^ 2 + V.a21 ^ 2 = 1 := by
+    have := congrArg M3.a11 hV.1; simp only [M3.mul, M3.transpose, M3.id, rs_one] at this; linear_combination this
+  have h21 : |(-V.a21)| ≤ 1 := by
+    rw [abs_neg]; apply abs_le_of_sq_le_sq _ (by norm_num); nlinarith [sq_nonneg V.a20, sq_nonneg V.a22]
+  apply allOk_tryAssert
+  intro s hs
+  obtain ⟨_, hsin0⟩ := boundAsin_ok h21 hs
+  simp only [rs_cos, rs_sin, rs_atan2, rs_pi]
+  have body : ∀ mu : ℝ, Real.sin mu = -V.a21 →
+      AllOk (RefSpec (Vref psi theta N))
+        (if (Scalar.isSmall (-(Scalar.sign (Real.cos mu) : ℝ) * V.a01) && Scalar.isSmall ((Scalar.sign (Real.cos mu) : ℝ) * V.a11)) = true then Except.error PErr.dce
+         else if (Scalar.isSmall ((Scalar.sign (Real.cos mu) : ℝ) * V.a22) && Scalar.isSmall ((Scalar.sign (Real.cos mu) : ℝ) * V.a20)) = true then Except.error PErr.dce
+         else Except.ok [(atan2R ((Scalar.sign (Real.cos mu) : ℝ) * V.a22) ((Scalar.sign (Real.cos mu) : ℝ) * V.a20), psi, mu,
+                          atan2R (-(Scalar.sign (Real.cos mu) : ℝ) * V.a01) ((Scalar.sign (Real.cos mu) : ℝ) * V.a11), chi, phi)]) := by
+    intro mu hmu
+    by_cases hsm : Scalar.isSmall (Real.cos mu) = true
+    · rw [sign_small _ hsm]
+      simp [isSmall_zero]
+      exact allOk_error _
+    · have hsm' : Scalar.isSmall (Real.cos mu) = false := by simpa using hsm
+      have hcne := not_small_ne_zero hsm'
+      obtain ⟨hsg, hsg2⟩ := sign_facts (Real.cos mu) hsm'
+      set sg := (Scalar.sign (Real.cos mu) : ℝ) with hsgdef
+      split
+      · exact allOk_error _
+      · split
+        · exact allOk_error _
+        · apply allOk_ok
+          intro t ht
+          simp only [List.mem_singleton] at ht
+          subst ht
+          have habs : 0 < |Real.cos mu| := abs_pos.mpr hcne
+          have hsc := Real.sin_sq_add_cos_sq mu
+          have hsqabs : |Real.cos mu| ^ 2 = Real.cos mu ^ 2 := sq_abs _
+          have hcos : Real.cos mu = sg * |Real.cos mu| := by rw [← hsg]; linear_combination (-(Real.cos mu)) * hsg2
+          generalize |Real.cos mu| = A at habs hsqabs hcos hsg
+          have hR1 : (sg * V.a20) ^ 2 + (sg * V.a22) ^ 2 = A ^ 2 := by
+            rw [hsqabs]; rw [hmu] at hsc
+            linear_combination (V.a20 ^ 2 + V.a22 ^ 2) * hsg2 + hrow - hsc
+          have hR2 : (sg * V.a11) ^ 2 + (-sg * V.a01) ^ 2 = A ^ 2 := by
+            rw [hsqabs]; rw [hmu] at hsc
+            linear_combination (V.a01 ^ 2 + V.a11 ^ 2) * hsg2 + hcol - hsc
+          obtain ⟨hcq, hsq⟩ := atan2_cs (sg * V.a20) (sg * V.a22) A habs hR1
+          obtain ⟨hce, hse⟩ := atan2_cs (sg * V.a11) (-sg * V.a01) A habs hR2
+          have habsne := habs.ne'
+          apply refSpec_of_emf
+          rw [← hVdef]
+          apply rot_eq_of_row2_col1 _ _ hV (isRot_emf _ _ _)
+          · intro h1
+            have h2 : V.a21 ^ 2 = Real.sin mu ^ 2 := by rw [hmu]; ring
+            have : Real.cos mu ^ 2 = 0 := by nlinarith
+            exact hcne (pow_eq_zero_iff (by norm_num) |>.mp this)
+          all_goals rw [emf_entries]; simp only []
+          · rw [hcq, hcos]; field_simp; linear_combination (-V.a20) * hsg2
+          · rw [hmu]; ring
+          · rw [hsq, hcos]; field_simp; linear_combination (-V.a22) * hsg2
+          · rw [hse, hcos]; field_simp; linear_combination (-V.a01) * hsg2
+          · rw [hce, hcos]; field_simp; linear_combination (-V.a11) * hsg2
+  split
+  · apply allOk_forM'
+    intro mu hmu
+    simp only [List.mem_singleton] at hmu
+    subst hmu
+    exact body _ hsin0
+  · apply allOk_forM'
+    intro mu hmu
+    simp only [List.mem_cons, List.not_mem_nil, or_false] at hmu
+    rcases hmu with rfl | rfl
+    · exact body _ hsin0
+    · exact body _ (by rw [Real.sin_pi_sub]; exact hsin0)
+
+/-- `CHI·PHI` entry by entry -/
+def cp (chi phi : ℝ) : M3 ℝ := M3.mul (rotY chi) (rotZ (-phi))
+theorem cp_entries (chi phi : ℝ) : cp chi phi =
+    ⟨Real.cos chi * Real.cos phi, Real.cos chi * Real.sin phi, Real.sin chi, -Real.sin phi, Real.cos phi, 0,
+     -Real.sin chi * Real.cos phi, -Real.sin chi * Real.sin phi, Real.cos chi⟩ := by
+  ext <;> simp only [cp, M3.mul, rotY, rotZ, rs_cos, rs_sin, rs_one, rs_zero, Real.cos_neg, Real.sin_neg] <;> ring
+theorem isRot_cp (chi phi : ℝ) : IsRot (cp chi phi) := IsRot.mul (isRot_rotY _) (isRot_rotZ _)
+
+/-- `__get_phi_and_qaz`: once chi satisfies the `V21` equation, the two `atan2` read-offs complete the orientation equation -/
+theorem phiAndQaz_sound (chi eta mu : ℝ) (V : M3 ℝ) (hV : IsRot V)
+    (h21 : V.a21 = -(Real.sin chi * Real.sin eta * Real.cos mu + Real.cos chi * Real.sin mu)) (hne : V.a21 ^ 2 ≠ 1) :
+    M3.mul (cp chi (phiAndQaz chi eta mu V).2) V = emf mu eta (phiAndQaz chi eta mu V).1 := by
+  unfold phiAndQaz
+  simp only [rs_sin, rs_cos, rs_atan2]
+  set a := Real.sin chi * Real.cos eta with ha
+  set b := Real.sin chi * Real.sin eta * Real.sin mu - Real.cos chi * Real.cos mu with hb
+  set a' := Real.sin chi * Real.sin mu - Real.cos mu * Real.cos chi * Real.sin eta with ha'
+  set b' := Real.cos mu * Real.cos eta with hb'
+  have hsx := Real.sin_sq_add_cos_sq chi
+  have hse := Real.sin_sq_add_cos_sq eta
+  have hsm := Real.sin_sq_add_cos_sq mu
+  have hrow : V.a20 ^ 2 + V.a21 ^ 2 + V.a22 ^ 2 = 1 := (isRot_entries_le hV).1
+  have hcol : V.a01 ^ 2 + V.a11 ^ 2 + V.a21 ^ 2 = 1 := by
+    have := congrArg M3.a11 hV.1; simp only [M3.mul, M3.transpose, M3.id, rs_one] at this; linear_combination this
+  have hD : a ^ 2 + b ^ 2 = 1 - V.a21 ^ 2 := by
+    rw [h21, ha, hb]
+    linear_combination (Real.sin chi ^ 2 * Real.sin eta ^ 2 + Real.cos chi ^ 2) * hsm + (Real.sin chi ^ 2) * hse + hsx - hsm * 0
+      + ((Real.sin chi ^ 2 * Real.sin eta ^ 2 + Real.cos chi ^ 2) - 1 + Real.sin chi ^ 2 * Real.cos eta ^ 2) * 0
+  have hD' : a' ^ 2 + b' ^ 2 = 1 - V.a21 ^ 2 := by
+    rw [h21, ha', hb']
+    linear_combination hsm + (Real.cos mu ^ 2) * hse + (Real.sin mu ^ 2 + Real.cos mu ^ 2 * Real.sin eta ^ 2) * hsx
+  have hDpos : 0 < 1 - V.a21 ^ 2 := by
+    have : V.a21 ^ 2 ≤ 1 := by nlinarith [sq_nonneg V.a20, sq_nonneg V.a22]
+    exact lt_of_le_of_ne (by linarith) (fun h => hne (by linarith))
+  have hq := atan2_cs (-V.a22 * a - V.a20 * b) (V.a20 * a - V.a22 * b) (1 - V.a21 ^ 2) hDpos (by
+    have : (-V.a22 * a - V.a20 * b) ^ 2 + (V.a20 * a - V.a22 * b) ^ 2 = (a ^ 2 + b ^ 2) * (V.a20 ^ 2 + V.a22 ^ 2) := by ring
+    rw [this, hD]; have : V.a20 ^ 2 + V.a22 ^ 2 = 1 - V.a21 ^ 2 := by linarith
+    rw [this]; ring)
+  have hp := atan2_cs (V.a01 * a' + V.a11 * b') (V.a11 * a' - V.a01 * b') (1 - V.a21 ^ 2) hDpos (by
+    have : (V.a01 * a' + V.a11 * b') ^ 2 + (V.a11 * a' - V.a01 * b') ^ 2 = (a' ^ 2 + b' ^ 2) * (V.a01 ^ 2 + V.a11 ^ 2) := by ring
+    rw [this, hD']; have : V.a01 ^ 2 + V.a11 ^ 2 = 1 - V.a21 ^ 2 := by linarith
+    rw [this]; ring)
+  obtain ⟨hcq, hsq⟩ := hq
+  obtain ⟨hcp, hsp⟩ := hp
+  generalize atan2R (V.a20 * a - V.a22 * b) (-V.a22 * a - V.a20 * b) = qaz at hcq hsq ⊢
+  generalize atan2R (V.a11 * a' - V.a01 * b') (V.a01 * a' + V.a11 * b') = phi at hcp hsp ⊢
+  have hne' := hDpos.ne'
+  -- V = (CHI·PHI)ᵀ · emf : they agree on the third row and the second column
+  have hVeq : V = M3.mul (M3.transpose (cp chi phi)) (emf mu eta qaz) := by
+    apply rot_eq_of_row2_col1 _ _ hV (IsRot.mul (C04.isRot_transpose (isRot_cp _ _)) (isRot_emf _ _ _)) hne
+    all_goals rw [cp_entries, emf_entries]; simp only [M3.mul, M3.transpose]
+    · -- V20 = a sin q − b cos q
+      rw [hcq, hsq]; field_simp
+      have : V.a20 ^ 2 + V.a22 ^ 2 = 1 - V.a21 ^ 2 := by linarith
+      rw [ha, hb] at hD ⊢
+      linear_combination (-V.a20) * hD
+    · rw [h21]; ring
+    · rw [hcq, hsq]; field_simp
+      rw [ha, hb] at hD ⊢
+      linear_combination (-V.a22) * hD
+    · rw [hcp, hsp]; field_simp
+      rw [ha', hb'] at hD' ⊢
+      linear_combination (-V.a01) * hD'
+    · rw [hcp, hsp]; field_simp
+      rw [ha', hb'] at hD' ⊢
+      linear_combination (-V.a11) * hD'
+  rw [hVeq, ← M3.mul_assoc', rot_mul_transpose (isRot_cp _ _), M3.id_mul]
+
+theorem bound_id {x : ℝ} (hx : |x| ≤ 1) : bound x = .ok x := by
+  obtain ⟨l, u⟩ := abs_le.mp hx
+  have c1 : Scalar.lt (Scalar.one + Scalar.SMALL : ℝ) (Scalar.abs x) = false := by
+    simp only [rs_lt, rs_abs, rs_one, Scalar.SMALL, Scalar.ofSci, decide_eq_false_iff_not, not_lt]
+    have : (0:ℝ) ≤ OfScientific.ofScientific 1 true 7 := by norm_num
+    linarith
+  have c2 : Scalar.lt (Scalar.one : ℝ) x = false := by simp only [rs_lt, rs_one, decide_eq_false_iff_not, not_lt]; exact u
+  have c3 : Scalar.lt x (-(Scalar.one : ℝ)) = false := by simp only [rs_lt, rs_one, decide_eq_false_iff_not, not_lt]; exact l
+  simp only [bound, c1, c2, c3, Bool.false_eq_true, if_false]
+
+/-- roots `as − ε`, `π − as − ε` (`ε = atan2(q, p)`) of `p sin χ + q cos χ = R sin as` -/
+theorem sin_form (p q R a χ : ℝ) (hR : 0 < R) (hR2 : p ^ 2 + q ^ 2 = R ^ 2)
+    (hχ : χ = a - atan2R q p ∨ χ = Real.pi - a - atan2R q p) : p * Real.sin χ + q * Real.cos χ = R * Real.sin a := by
+  obtain ⟨hce, hse⟩ := atan2_cs p q R hR hR2
+  have hRne := hR.ne'
+  have h0 : p = R * Real.cos (atan2R q p) := by rw [hce]; field_simp
+  have h1 : q = R * Real.sin (atan2R q p) := by rw [hse]; field_simp
+  have hsc := Real.sin_sq_add_cos_sq (atan2R q p)
+  rcases hχ with rfl | rfl
+  · rw [Real.sin_sub, Real.cos_sub]
+    linear_combination (Real.sin a * Real.cos (atan2R q p) - Real.cos a * Real.sin (atan2R q p)) * h0
+      + (Real.cos a * Real.cos (atan2R q p) + Real.sin a * Real.sin (atan2R q p)) * h1 + (R * Real.sin a) * hsc
+  · rw [Real.sin_sub (Real.pi - a), Real.cos_sub (Real.pi - a), Real.sin_pi_sub, Real.cos_pi_sub]
+    linear_combination (Real.sin a * Real.cos (atan2R q p) + Real.cos a * Real.sin (atan2R q p)) * h0
+      + (-Real.cos a * Real.cos (atan2R q p) + Real.sin a * Real.sin (atan2R q p)) * h1 + (R * Real.sin a) * hsc
+
+/-- roots `ε + ac`, `ε − ac` (`ε = atan2(p, q)`) of `p sin χ + q cos χ = R cos ac` -/
+theorem cos_form (p q R a χ : ℝ) (hR : 0 < R) (hR2 : p ^ 2 + q ^ 2 = R ^ 2)
+    (hχ : χ = atan2R p q + a ∨ χ = atan2R p q - a) : p * Real.sin χ + q * Real.cos χ = R * Real.cos a := by
+  obtain ⟨hce, hse⟩ := atan2_cs q p R hR (by linarith)
+  have hRne := hR.ne'
+  have h0 : q = R * Real.cos (atan2R p q) := by rw [hce]; field_simp
+  have h1 : p = R * Real.sin (atan2R p q) := by rw [hse]; field_simp
+  have hsc := Real.sin_sq_add_cos_sq (atan2R p q)
+  rcases hχ with rfl | rfl
+  · rw [Real.sin_add, Real.cos_add]
+    linear_combination (Real.sin (atan2R p q) * Real.cos a + Real.cos (atan2R p q) * Real.sin a) * h1
+      + (Real.cos (atan2R p q) * Real.cos a - Real.sin (atan2R p q) * Real.sin a) * h0 + (R * Real.cos a) * hsc
+  · rw [Real.sin_sub, Real.cos_sub]
+    linear_combination (Real.sin (atan2R p q) * Real.cos a - Real.cos (atan2R p q) * Real.sin a) * h1
+      + (Real.cos (atan2R p q) * Real.cos a + Real.sin (atan2R p q) * Real.sin a) * h0 + (R * Real.cos a) * hsc
+
+/-- **reference + mu + eta** (`__calc_sample_ref_con_mu_eta`) -/
+theorem refConMuEta_sound (mu eta psi theta : ℝ) (N : M3 ℝ) (hN : IsRot N)
+    (hR : Real.sin eta * Real.cos mu ≠ 0 ∨ Real.sin mu ≠ 0)
+    (hclip : |(-(Vref psi theta N).a21) / Real.sqrt (Real.sin eta * Real.sin eta * (Real.cos mu * Real.cos mu) + Real.sin mu * Real.sin mu)| ≤ 1)
+    (hne : (Vref psi theta N).a21 ^ 2 ≠ 1) :
+    AllOk (RefSpec (Vref psi theta N)) (refConMuEta mu eta psi theta N) := by
+  unfold refConMuEta
+  simp only [rs_sin, rs_cos, rs_atan2, rs_pi]
+  set V := Vref psi theta N with hVdef
+  have hV : IsRot V := isRot_Vref psi theta N hN
+  have hsq : 0 ≤ Real.sin eta * Real.sin eta * (Real.cos mu * Real.cos mu) + Real.sin mu * Real.sin mu := by
+    nlinarith [mul_self_nonneg (Real.sin eta * Real.cos mu), mul_self_nonneg (Real.sin mu)]
+  have hrr : Real.sqrt (Real.sin eta * Real.sin eta * (Real.cos mu * Real.cos mu) + Real.sin mu * Real.sin mu)
+      = Scalar.hypot (Real.sin eta * Real.cos mu) (Real.sin mu) := by
+    simp only [Scalar.hypot, rs_sqrt]; congr 1; ring
+  have hr := hypot_pos_of _ _ hR
+  have hr2 := hypot_sq (Real.sin eta * Real.cos mu) (Real.sin mu)
+  rw [pySqrt_ok hsq, hrr]
+  rw [hrr] at hclip
+  set r := Scalar.hypot (Real.sin eta * Real.cos mu) (Real.sin mu) with hrdef
+  simp only [bind, Except.bind, bound_id hclip]
+  unfold tryAssert
+  simp only []
+  have hrne := hr.ne'
+  have finish : ∀ chi : ℝ, Real.sin eta * Real.cos mu * Real.sin chi + Real.sin mu * Real.cos chi = -V.a21 →
+      RefSpec V ((phiAndQaz chi eta mu V).1, psi, mu, eta, chi, (phiAndQaz chi eta mu V).2) := by
+    intro chi hchi
+    apply refSpec_of_emf
+    have := phiAndQaz_sound chi eta mu V hV (by linear_combination hchi) hne
+    rw [cp] at this
+    exact this
+  split
+  · rename_i hsmall
+    -- acos form
+    have hac : pyAcos (-V.a21 / r) = .ok (Real.arccos (-V.a21 / r)) := pyAcos_ok hclip
+    simp only [hac, pure, Except.pure]
+    apply allOk_ok
+    intro t ht
+    obtain ⟨chi, hchi, rfl⟩ := List.mem_map.mp ht
+    simp only [List.mem_cons, List.not_mem_nil, or_false] at hchi
+    have := cos_form (Real.sin eta * Real.cos mu) (Real.sin mu) r (Real.arccos (-V.a21 / r)) chi hr hr2 hchi
+    rw [Real.cos_arccos (abs_le.mp hclip).1 (abs_le.mp hclip).2] at this
+    have hfin := finish chi (by rw [this]; field_simp)
+    simpa using hfin
+  · have has : pyAsin (-V.a21 / r) = .ok (Real.arcsin (-V.a21 / r)) := pyAsin_ok hclip
+    simp only [has, pure, Except.pure]
+    apply allOk_ok
+    intro t ht
+    obtain ⟨chi, hchi, rfl⟩ := List.mem_map.mp ht
+    simp only [List.mem_cons, List.not_mem_nil, or_false] at hchi
+    have := sin_form (Real.sin eta * Real.cos mu) (Real.sin mu) r (Real.arcsin (-V.a21 / r)) chi hr hr2 hchi
+    rw [Real.sin_arcsin (abs_le.mp hclip).1 (abs_le.mp hclip).2] at this
+    have hfin := finish chi (by rw [this]; field_simp)
+    simpa using hfin
+
+/-- **reference + chi + eta** (`__calc_sample_ref_con_chi_eta`) -/
+theorem refConChiEta_sound (chi eta psi theta : ℝ) (N : M3 ℝ) (hN : IsRot N)
+    (hR : Real.cos chi ≠ 0 ∨ Real.sin chi * Real.sin eta ≠ 0)
+    (hclip : |(-(Vref psi theta N).a21) / Real.sqrt (Real.sin eta * Real.sin eta * (Real.sin chi * Real.sin chi) + Real.cos chi * Real.cos chi)| ≤ 1)
+    (hne : (Vref psi theta N).a21 ^ 2 ≠ 1) :
+    AllOk (RefSpec (Vref psi theta N)) (refConChiEta chi eta psi theta N) := by
+  unfold refConChiEta
+  simp only [rs_sin, rs_cos, rs_atan2, rs_pi]
+  set V := Vref psi theta N with hVdef
+  have hV : IsRot V := isRot_Vref psi theta N hN
+  have hsq : 0 ≤ Real.sin eta * Real.sin eta * (Real.sin chi * Real.sin chi) + Real.cos chi * Real.cos chi := by
+    nlinarith [mul_self_nonneg (Real.sin eta * Real.sin chi), mul_self_nonneg (Real.cos chi)]
+  have hrr : Real.sqrt (Real.sin eta * Real.sin eta * (Real.sin chi * Real.sin chi) + Real.cos chi * Real.cos chi)
+      = Scalar.hypot (Real.cos chi) (Real.sin chi * Real.sin eta) := by
+    simp only [Scalar.hypot, rs_sqrt]; congr 1; ring
+  have hr := hypot_pos_of _ _ hR
+  have hr2 := hypot_sq (Real.cos chi) (Real.sin chi * Real.sin eta)
+  rw [pySqrt_ok hsq, hrr]
+  rw [hrr] at hclip
+  set r := Scalar.hypot (Real.cos chi) (Real.sin chi * Real.sin eta) with hrdef
+  simp only [bind, Except.bind, bound_id hclip]
+  unfold tryAssert
+  simp only []
+  have hrne := hr.ne'
+  have finish : ∀ mu : ℝ, Real.cos chi * Real.sin mu + Real.sin chi * Real.sin eta * Real.cos mu = -V.a21 →
+      RefSpec V ((phiAndQaz chi eta mu V).1, psi, mu, eta, chi, (phiAndQaz chi eta mu V).2) := by
+    intro mu hmu
+    apply refSpec_of_emf
+    have := phiAndQaz_sound chi eta mu V hV (by linear_combination hmu) hne
+    rw [cp] at this
+    exact this
+  split
+  · have hac : pyAcos (-V.a21 / r) = .ok (Real.arccos (-V.a21 / r)) := pyAcos_ok hclip
+    simp only [hac, pure, Except.pure]
+    apply allOk_ok
+    intro t ht
+    obtain ⟨mu, hmu, rfl⟩ := List.mem_map.mp ht
+    simp only [List.mem_cons, List.not_mem_nil, or_false] at hmu
+    have := cos_form (Real.cos chi) (Real.sin chi * Real.sin eta) r (Real.arccos (-V.a21 / r)) mu hr hr2 hmu
+    rw [Real.cos_arccos (abs_le.mp hclip).1 (abs_le.mp hclip).2] at this
+    have hfin := finish mu (by rw [this]; field_simp)
+    simpa using hfin
+  · have has : pyAsin (-V.a21 / r) = .ok (Real.arcsin (-V.a21 / r)) := pyAsin_ok hclip
+    simp only [has, pure, Except.pure]
+    apply allOk_ok
+    intro t ht
+    obtain ⟨mu, hmu, rfl⟩ := List.mem_map.mp ht
+    simp only [List.mem_cons, List.not_mem_nil, or_false] at hmu
+    have := sin_form (Real.cos chi) (Real.sin chi * Real.sin eta) r (Real.arcsin (-V.a21 / r)) mu hr hr2 hmu
+    rw [Real.sin_arcsin (abs_le.mp hclip).1 (abs_le.mp hclip).2] at this
+    have hfin := finish mu (by rw [this]; field_simp)
+    simpa using hfin
+
+/-- **reference + chi + mu** (`__calc_sample_ref_con_chi_mu`) -/
+theorem refConChiMu_sound (chi mu psi theta : ℝ) (N : M3 ℝ) (hN : IsRot N)
+    (hd : Real.sin chi * Real.cos mu ≠ 0)
+    (hclip : |(-(Vref psi theta N).a21 - Real.cos chi * Real.sin mu) / (Real.sin chi * Real.cos mu)| ≤ 1)
+    (hne : (Vref psi theta N).a21 ^ 2 ≠ 1) :
+    AllOk (RefSpec (Vref psi theta N)) (refConChiMu chi mu psi theta N) := by
+  unfold refConChiMu
+  simp only [rs_sin, rs_cos, rs_pi]
+  set V := Vref psi theta N with hVdef
+  have hV : IsRot V := isRot_Vref psi theta N hN
+  apply allOk_tryAssert
+  intro s hs
+  obtain ⟨_, hsin⟩ := boundAsin_ok hclip hs
+  apply allOk_ok
+  intro t ht
+  obtain ⟨eta, heta, rfl⟩ := List.mem_map.mp ht
+  simp only [List.mem_cons, List.not_mem_nil, or_false] at heta
+  have hse : Real.sin eta = (-V.a21 - Real.cos chi * Real.sin mu) / (Real.sin chi * Real.cos mu) := by
+    rcases heta with rfl | rfl <;> simp [hsin, Real.sin_pi_sub]
+  have h21 : V.a21 = -(Real.sin chi * Real.sin eta * Real.cos mu + Real.cos chi * Real.sin mu) := by
+    have hs1 : Real.sin chi ≠ 0 := left_ne_zero_of_mul hd
+    have hc1 : Real.cos mu ≠ 0 := right_ne_zero_of_mul hd
+    rw [hse]; field_simp; ring
+  have := phiAndQaz_sound chi eta mu V hV h21 hne
+  have hfin : RefSpec V ((phiAndQaz chi eta mu V).1, psi, mu, eta, chi, (phiAndQaz chi eta mu V).2) := by
+    apply refSpec_of_emf; rw [cp] at this; exact this
+  simpa using hfin
+
+/-- two proper rotations that agree on their second row and second column (crossing entry not ±1) are equal -/
+theorem rot_eq_of_row1_col1 (A B : M3 ℝ) (hA : IsRot A) (hB : IsRot B) (hne : A.a11 ^ 2 ≠ 1)
+    (h10 : A.a10 = B.a10) (h11 : A.a11 = B.a11) (h12 : A.a12 = B.a12) (h01 : A.a01 = B.a01) (h21 : A.a21 = B.a21) : A = B := by
+  have key : ∀ M : M3 ℝ, IsRot M →
+      M.a00 * (1 - M.a11 ^ 2) = M.a11 * M.a12 * M.a21 * 0 + (-M.a01 * M.a10 * M.a11 - M.a12 * M.a21) ∧
+      M.a22 * (1 - M.a11 ^ 2) = -M.a21 * M.a12 * M.a11 - M.a10 * M.a01 ∧
+      M.a02 = M.a10 * M.a21 - M.a11 * M.a20 ∧ M.a20 = M.a01 * M.a12 - M.a02 * M.a11 := by
+    intro M hM
+    have hadj := adj_eq_transpose hM
+    have d00 := congrArg M3.a00 hadj; have d22 := congrArg M3.a22 hadj
+    have d20 := congrArg M3.a20 hadj; have d02 := congrArg M3.a02 hadj
+    simp only [M3.adj, M3.transpose] at d00 d22 d20 d02
+    -- d00 : a11 a22 − a12 a21 = a00 ; d22 : a00 a11 − a01 a10 = a22 ; d20 : a10 a21 − a11 a20 = a02 ; d02 : a01 a12 − a02 a11 = a20
+    refine ⟨?_, ?_, ?_, ?_⟩
+    · linear_combination (-1 : ℝ) * d00 - M.a11 * d22
+    · linear_combination (-1 : ℝ) * d22 - M.a11 * d00
+    · linear_combination (-1 : ℝ) * d20
+    · linear_combination (-1 : ℝ) * d02
+  obtain ⟨a1, a2, a3, a4⟩ := key A hA
+  obtain ⟨b1, b2, b3, b4⟩ := key B hB
+  have hd : (1 - A.a11 ^ 2) ≠ 0 := by intro h; apply hne; linarith
+  simp only [← h10, ← h11, ← h12, ← h01, ← h21] at b1 b2 b3 b4
+  have e00 : A.a00 = B.a00 := mul_right_cancel₀ hd (by rw [a1, b1])
+  have e22 : A.a22 = B.a22 := mul_right_cancel₀ hd (by rw [a2, b2])
+  -- a02 and a20 are coupled: a02 = a10 a21 − a11 a20, a20 = a01 a12 − a02 a11 ⇒ a02 (1 − a11²) = a10 a21 − a11 a01 a12
+  have e02 : A.a02 = B.a02 := by
+    have ha : A.a02 * (1 - A.a11 ^ 2) = A.a10 * A.a21 - A.a11 * A.a01 * A.a12 := by rw [a4] at a3; linear_combination a3
+    have hb : B.a02 * (1 - A.a11 ^ 2) = A.a10 * A.a21 - A.a11 * A.a01 * A.a12 := by rw [b4] at b3; linear_combination b3
+    exact mul_right_cancel₀ hd (by rw [ha, hb])
+  have e20 : A.a20 = B.a20 := by rw [a4, b4, e02]
+  ext <;> assumption
+
+/-- `F(qaz)ᵀ·MU·ETA·CHI` -/
+def fmec (qaz mu eta chi : ℝ) : M3 ℝ := M3.mul (M3.transpose (Fq qaz)) (mec mu eta chi)
+theorem isRot_mec (mu eta chi : ℝ) : IsRot (mec mu eta chi) := IsRot.mul (IsRot.mul (isRot_rotX _) (isRot_rotZ _)) (isRot_rotY _)
+theorem isRot_fmec (qaz mu eta chi : ℝ) : IsRot (fmec qaz mu eta chi) := IsRot.mul (C04.isRot_transpose (isRot_Fq _)) (isRot_mec _ _ _)
+
+/-- `__get_chi_and_qaz`: once `V11 = cos μ cos η`, the two `atan2` read-offs give `V = F(qaz)ᵀ·MU·ETA·CHI` -/
+theorem chiAndQaz_sound (mu eta : ℝ) (V : M3 ℝ) (hV : IsRot V) (h11 : V.a11 = Real.cos mu * Real.cos eta) (hne : V.a11 ^ 2 ≠ 1)
+    (qaz chi : ℝ) (h : chiAndQaz mu eta V = .ok (qaz, chi)) : V = fmec qaz mu eta chi := by
+  unfold chiAndQaz at h
+  simp only [rs_sin, rs_cos, rs_atan2] at h
+  split at h
+  · cases h
+  · simp only [Except.ok.injEq, Prod.mk.injEq] at h
+    obtain ⟨hq, hc⟩ := h
+    set A := Real.sin mu with hA
+    set B := -(Real.cos mu) * Real.sin eta with hB
+    set A' := Real.sin eta with hA'
+    set B' := Real.cos eta * Real.sin mu with hB'
+    have hse := Real.sin_sq_add_cos_sq eta
+    have hsm := Real.sin_sq_add_cos_sq mu
+    have hrow : V.a10 ^ 2 + V.a11 ^ 2 + V.a12 ^ 2 = 1 := by
+      have := congrArg M3.a11 (rot_mul_transpose hV); simp only [M3.mul, M3.transpose, M3.id, rs_one] at this; linear_combination this
+    have hcol : V.a01 ^ 2 + V.a11 ^ 2 + V.a21 ^ 2 = 1 := by
+      have := congrArg M3.a11 hV.1; simp only [M3.mul, M3.transpose, M3.id, rs_one] at this; linear_combination this
+    have hD : A ^ 2 + B ^ 2 = 1 - V.a11 ^ 2 := by
+      rw [h11, hA, hB]; linear_combination hsm + (Real.cos mu ^ 2) * hse
+    have hD' : A' ^ 2 + B' ^ 2 = 1 - V.a11 ^ 2 := by
+      rw [h11, hA', hB']; linear_combination hse + (Real.cos eta ^ 2) * hsm
+    have hDpos : 0 < 1 - V.a11 ^ 2 := by
+      have : V.a11 ^ 2 ≤ 1 := by nlinarith [sq_nonneg V.a10, sq_nonneg V.a12]
+      exact lt_of_le_of_ne (by linarith) (fun h => hne (by linarith))
+    have hx := atan2_cs (B * V.a10 - A * V.a12) (A * V.a10 + B * V.a12) (1 - V.a11 ^ 2) hDpos (by
+      have : (B * V.a10 - A * V.a12) ^ 2 + (A * V.a10 + B * V.a12) ^ 2 = (A ^ 2 + B ^ 2) * (V.a10 ^ 2 + V.a12 ^ 2) := by ring
+      rw [this, hD]; have : V.a10 ^ 2 + V.a12 ^ 2 = 1 - V.a11 ^ 2 := by linarith
+      rw [this]; ring)
+    have hqq := atan2_cs (B' * V.a01 - A' * V.a21) (A' * V.a01 + B' * V.a21) (1 - V.a11 ^ 2) hDpos (by
+      have : (B' * V.a01 - A' * V.a21) ^ 2 + (A' * V.a01 + B' * V.a21) ^ 2 = (A' ^ 2 + B' ^ 2) * (V.a01 ^ 2 + V.a21 ^ 2) := by ring
+      rw [this, hD']; have : V.a01 ^ 2 + V.a21 ^ 2 = 1 - V.a11 ^ 2 := by linarith
+      rw [this]; ring)
+    rw [hc] at hx
+    rw [hq] at hqq
+    obtain ⟨hcx, hsx⟩ := hx
+    obtain ⟨hcq, hsq⟩ := hqq
+    have hne' := hDpos.ne'
+    apply rot_eq_of_row1_col1 _ _ hV (isRot_fmec _ _ _ _) hne
+    all_goals (simp only [fmec, Fq]; rw [mec_entries]; simp only [M3.mul, M3.transpose])
+    · rw [hcx, hsx]; field_simp; rw [hA, hB] at hD ⊢; linear_combination (-V.a10) * hD
+    · rw [h11]; ring
+    · rw [hcx, hsx]; field_simp; rw [hA, hB] at hD ⊢; linear_combination (-V.a12) * hD
+    · rw [hcq, hsq]; field_simp; rw [hA', hB'] at hD' ⊢; linear_combination (-V.a01) * hD'
+    · rw [hcq, hsq]; field_simp; rw [hA', hB'] at hD' ⊢; linear_combination (-V.a21) * hD'
+
+theorem transpose_mul3 (a b c : M3 ℝ) : M3.transpose (M3.mul (M3.mul a b) c) = M3.mul (M3.transpose c) (M3.mul (M3.transpose b) (M3.transpose a)) := by
+  rw [M3.transpose_mul, M3.transpose_mul]
+
+theorem transpose_transpose' (a : M3 ℝ) : M3.transpose (M3.transpose a) = a := by cases a; rfl
+
+theorem isRot_Vref2 (phi psi theta : ℝ) (N : M3 ℝ) (hN : IsRot N) : IsRot (Vref2 phi psi theta N) := by
+  unfold Vref2
+  rw [gen_x_rotation, gen_z_rotation, (gen_rot_senses phi).2.2.2.2.2, inv_of_isRot' hN]
+  exact IsRot.mul (IsRot.mul (IsRot.mul (isRot_rotZ _) (isRot_rotX _)) (C04.isRot_transpose hN)) (C04.isRot_transpose (isRot_rotZ _))
+
+/-- the second arrangement of the reference equation: `THETA·PSI·N_phi⁻¹·PHIᵀ = F(qaz)ᵀ·MU·ETA·CHI` gives `Z·V_ref = F(qaz)` -/
+theorem refSpec_of_fmec (N : M3 ℝ) (hN : IsRot N) (qaz psi theta mu eta chi phi : ℝ)
+    (h : Vref2 phi psi theta N = fmec qaz mu eta chi) : RefSpec (Vref psi theta N) (qaz, psi, mu, eta, chi, phi) := by
+  unfold RefSpec
+  simp only []
+  -- Vrefᵀ = Vref2 · PHI
+  have hT : M3.transpose (Vref psi theta N) = M3.mul (Vref2 phi psi theta N) (rotZ (-phi)) := by
+    unfold Vref Vref2
+    rw [gen_x_rotation, gen_z_rotation, (gen_rot_senses phi).2.2.2.2.2, inv_of_isRot' hN, transpose_mul3, transpose_transpose', transpose_transpose']
+    simp only [M3.mul_assoc']
+    rw [(isRot_rotZ (-phi)).1, M3.mul_id]
+  have hZ : C04.Z mu eta chi phi = M3.mul (mec mu eta chi) (rotZ (-phi)) := Z_eq_mec_phi mu eta chi phi
+  -- (Z·Vref)ᵀ = Vrefᵀ·Zᵀ = Vref2·PHI·PHIᵀ·mecᵀ = Fᵀ
+  have : M3.transpose (M3.mul (C04.Z mu eta chi phi) (Vref psi theta N)) = M3.transpose (Fq qaz) := by
+    rw [M3.transpose_mul, hT, hZ, M3.transpose_mul, h, fmec]
+    simp only [M3.mul_assoc']
+    rw [← M3.mul_assoc' (rotZ (-phi)), rot_mul_transpose (isRot_rotZ _), M3.id_mul, rot_mul_transpose (isRot_mec _ _ _), M3.mul_id]
+  have := congrArg M3.transpose this
+  rwa [transpose_transpose', transpose_transpose'] at this
+
+/-- **reference + mu + phi** (`__calc_sample_ref_con_mu_phi`) -/
+theorem refConMuPhi_sound (mu phi psi theta : ℝ) (N : M3 ℝ) (hN : IsRot N)
+    (hclip : |(Vref2 phi psi theta N).a11 / Real.cos mu| ≤ 1) (hne : (Vref2 phi psi theta N).a11 ^ 2 ≠ 1) :
+    AllOk (RefSpec (Vref psi theta N)) (refConMuPhi mu phi psi theta N) := by
+  unfold refConMuPhi
+  simp only [rs_cos]
+  set V := Vref2 phi psi theta N with hVdef
+  have hV : IsRot V := isRot_Vref2 phi psi theta N hN
+  split
+  · exact allOk_error _
+  · rename_i hs
+    have hcne : Real.cos mu ≠ 0 := not_small_ne_zero (by simpa using hs)
+    apply allOk_tryAssert
+    intro c hc
+    obtain ⟨_, hcos⟩ := boundAcos_ok hclip hc
+    apply allOk_forM'
+    intro eta heta
+    simp only [List.mem_cons, List.not_mem_nil, or_false] at heta
+    have hce : Real.cos eta = V.a11 / Real.cos mu := by rcases heta with rfl | rfl <;> simp [hcos]
+    have h11 : V.a11 = Real.cos mu * Real.cos eta := by rw [hce]; field_simp
+    apply allOk_bind
+    rintro ⟨qaz, chi⟩ hqc
+    apply allOk_ok
+    intro t ht
+    simp only [List.mem_singleton] at ht
+    subst ht
+    exact refSpec_of_fmec N hN qaz psi theta mu eta chi phi (chiAndQaz_sound mu eta V hV h11 hne qaz chi hqc)
+
+/-- **reference + eta + phi** (`__calc_sample_ref_con_eta_phi`) -/
+theorem refConEtaPhi_sound (eta phi psi theta : ℝ) (N : M3 ℝ) (hN : IsRot N)
+    (hclip : |(Vref2 phi psi theta N).a11 / Real.cos eta| ≤ 1) (hne : (Vref2 phi psi theta N).a11 ^ 2 ≠ 1) :
+    AllOk (RefSpec (Vref psi theta N)) (refConEtaPhi eta phi psi theta N) := by
+  unfold refConEtaPhi
+  simp only [rs_cos]
+  set V := Vref2 phi psi theta N with hVdef
+  have hV : IsRot V := isRot_Vref2 phi psi theta N hN
+  split
+  · exact allOk_error _
+  · rename_i hs
+    have hcne : Real.cos eta ≠ 0 := not_small_ne_zero (by simpa using hs)
+    apply allOk_tryAssert
+    intro c hc
+    obtain ⟨_, hcos⟩ := boundAcos_ok hclip hc
+    apply allOk_forM'
+    intro mu hmu
+    simp only [List.mem_cons, List.not_mem_nil, or_false] at hmu
+    have hcm : Real.cos mu = V.a11 / Real.cos eta := by rcases hmu with rfl | rfl <;> simp [hcos]
+    have h11 : V.a11 = Real.cos mu * Real.cos eta := by rw [hcm]; field_simp
+    apply allOk_bind
+    rintro ⟨qaz, chi⟩ hqc
+    apply allOk_ok
+    intro t ht
+    simp only [List.mem_singleton] at ht
+    subst ht
+    exact refSpec_of_fmec N hN qaz psi theta mu eta chi phi (chiAndQaz_sound mu eta V hV h11 hne qaz chi hqc)
+
+/-- generic-branch side conditions of the six reference + two-sample solvers -/
+def Samp2RefGeneric (s : Samp2Ref ℝ) (psi theta : ℝ) (N : M3 ℝ) : Prop :=
+  match s with
+  | .chiPhi _ _ => True
+  | .muEta mu eta => (Real.sin eta * Real.cos mu ≠ 0 ∨ Real.sin mu ≠ 0) ∧
+      |(-(Vref psi theta N).a21) / Real.sqrt (Real.sin eta * Real.sin eta * (Real.cos mu * Real.cos mu) + Real.sin mu * Real.sin mu)| ≤ 1 ∧
+      (Vref psi theta N).a21 ^ 2 ≠ 1
+  | .chiEta chi eta => (Real.cos chi ≠ 0 ∨ Real.sin chi * Real.sin eta ≠ 0) ∧
+      |(-(Vref psi theta N).a21) / Real.sqrt (Real.sin eta * Real.sin eta * (Real.sin chi * Real.sin chi) + Real.cos chi * Real.cos chi)| ≤ 1 ∧
+      (Vref psi theta N).a21 ^ 2 ≠ 1
+  | .chiMu chi mu => Real.sin chi * Real.cos mu ≠ 0 ∧
+      |(-(Vref psi theta N).a21 - Real.cos chi * Real.sin mu) / (Real.sin chi * Real.cos mu)| ≤ 1 ∧ (Vref psi theta N).a21 ^ 2 ≠ 1
+  | .muPhi mu phi => |(Vref2 phi psi theta N).a11 / Real.cos mu| ≤ 1 ∧ (Vref2 phi psi theta N).a11 ^ 2 ≠ 1
+  | .etaPhi eta phi => |(Vref2 phi psi theta N).a11 / Real.cos eta| ≤ 1 ∧ (Vref2 phi psi theta N).a11 ^ 2 ≠ 1
+
+/-- **reference + two sample angles, all six branches** (`_calc_sample_con_two_sample_and_reference`): every returned tuple satisfies
+    `Z·N_phi·PSIᵀ·THETAᵀ = F(qaz)` for its own qaz -/
+theorem twoSampleReference_sound (s : Samp2Ref ℝ) (psi theta : ℝ) (N : M3 ℝ) (hN : IsRot N) (hgen : Samp2RefGeneric s psi theta N) :
+    AllOk (RefSpec (Vref psi theta N)) (twoSampleReference s psi theta N) := by
+  cases s with
+  | chiPhi chi phi => exact refConChiPhi_sound chi phi psi theta N hN
+  | muEta mu eta => exact refConMuEta_sound mu eta psi theta N hN hgen.1 hgen.2.1 hgen.2.2
+  | chiEta chi eta => exact refConChiEta_sound chi eta psi theta N hN hgen.1 hgen.2.1 hgen.2.2
+  | chiMu chi mu => exact refConChiMu_sound chi mu psi theta N hN hgen.1 hgen.2.1 hgen.2.2
+  | muPhi mu phi => exact refConMuPhi_sound mu phi psi theta N hN hgen.1 hgen.2
+  | etaPhi eta phi => exact refConEtaPhi_sound eta phi psi theta N hN hgen.1 hgen.2
+
+/-! ## three sample angles given (`calc_func.py`): the fourth from the y-component, qaz read off the result -/
+
+theorem Z_mulVec (mu eta chi phi : ℝ) (h : V3 ℝ) : M3.mulVec (C04.Z mu eta chi phi) h =
+    ⟨(Real.cos eta * Real.cos chi * Real.cos phi - Real.sin eta * Real.sin phi) * h.x + (Real.cos eta * Real.cos chi * Real.sin phi + Real.sin eta * Real.cos phi) * h.y
+        + Real.cos eta * Real.sin chi * h.z,
+     Real.cos mu * ((-Real.sin eta * Real.cos chi * Real.cos phi - Real.cos eta * Real.sin phi) * h.x + (-Real.sin eta * Real.cos chi * Real.sin phi + Real.cos eta * Real.cos phi) * h.y
+        - Real.sin eta * Real.sin chi * h.z) - Real.sin mu * (-Real.sin chi * Real.cos phi * h.x - Real.sin chi * Real.sin phi * h.y + Real.cos chi * h.z),
+     Real.sin mu * ((-Real.sin eta * Real.cos chi * Real.cos phi - Real.cos eta * Real.sin phi) * h.x + (-Real.sin eta * Real.cos chi * Real.sin phi + Real.cos eta * Real.cos phi) * h.y
+        - Real.sin eta * Real.sin chi * h.z) + Real.cos mu * (-Real.sin chi * Real.cos phi * h.x - Real.sin chi * Real.sin phi * h.y + Real.cos chi * h.z)⟩ := by
+  rw [Z_eq_mu_ecp, ecp_entries]
+  ext <;> simp only [M3.mulVec, M3.mul, rotX, rs_cos, rs_sin, rs_one, rs_zero] <;> ring
+
+theorem normalised_unit (h : V3 ℝ) (hh : V3.norm h = 1) : V3.normalised h = h := by
+  rw [normalised_eq_unit h (by rw [hh]; norm_num), unit_of_norm_one h hh]
+
+/-- the tuple with the free axis set to `v` -/
+def assign (free : Free) (mu eta chi phi v : ℝ) : STuple ℝ :=
+  match free with
+  | .mu => (v, eta, chi, phi) | .eta => (mu, v, chi, phi) | .chi => (mu, eta, v, phi) | .phi => (mu, eta, chi, v)
+
+/-- `__get_last_sample_angle`: every returned value of the free axis puts the y-component of `Z·ĥ` at `−sin θ` -/
+theorem lastSampleAngle_sound (free : Free) (mu eta chi phi : ℝ) (h : V3 ℝ) (hh : V3.norm h = 1) (theta : ℝ)
+    (hclip : |(lastABC free mu eta chi phi h theta).2.2 / Scalar.hypot (lastABC free mu eta chi phi h theta).1 (lastABC free mu eta chi phi h theta).2.1| ≤ 1)
+    (hgen : Scalar.isSmall (Real.arccos ((lastABC free mu eta chi phi h theta).2.2 /
+      Scalar.hypot (lastABC free mu eta chi phi h theta).1 (lastABC free mu eta chi phi h theta).2.1)) = false)
+    (l : List ℝ) (hl : lastSampleAngle free mu eta chi phi h theta = .ok l) :
+    ∀ v ∈ l, (M3.mulVec (C04.Z (assign free mu eta chi phi v).1 (assign free mu eta chi phi v).2.1 (assign free mu eta chi phi v).2.2.1
+      (assign free mu eta chi phi v).2.2.2) h).y = -Real.sin theta := by
+  unfold lastSampleAngle at hl
+  set ABC := lastABC free mu eta chi phi h theta with hABC
+  obtain ⟨A, B, C⟩ := ABC
+  simp only [] at hl hclip hgen
+  split at hl
+  · cases hl
+  · rename_i hAB
+    have hr0 : B ≠ 0 ∨ A ≠ 0 := by
+      by_contra hc; push_neg at hc
+      apply hAB; simp [hc.1, hc.2, isSmall_real]; norm_num
+    have hr := hypot_pos_of B A hr0
+    have hr2 := hypot_sq B A
+    have hhy : Scalar.hypot A B = Scalar.hypot B A := by simp only [Scalar.hypot, rs_sqrt]; congr 1; ring
+    rw [hhy] at hclip hgen hl
+    obtain ⟨c, hc, hl⟩ := bind_ok_inv hl
+    obtain ⟨hcv, hcos⟩ := boundAcos_ok hclip hc
+    rw [← hcv] at hgen
+    simp only [rs_atan2, hgen, Bool.false_eq_true, if_false, pure, Except.pure, Except.ok.injEq] at hl
+    intro v hv
+    rw [← hl] at hv
+    simp only [List.mem_cons, List.not_mem_nil, or_false] at hv
+    have ha := acos_roots B A (Scalar.hypot B A) c v hr hr2 hv
+    rw [hcos] at ha
+    have hrne := hr.ne'
+    have hBA : B * Real.cos v + A * Real.sin v = C := by rw [ha]; field_simp
+    -- identify A, B, C
+    have hABC' : lastABC free mu eta chi phi h theta = (A, B, C) := hABC.symm
+    unfold lastABC at hABC'
+    rw [normalised_unit h hh] at hABC'
+    rw [Z_mulVec]
+    cases free <;> simp only [assign, Prod.mk.injEq, rs_cos, rs_sin] at hABC' ⊢ <;> obtain ⟨eA, eB, eC⟩ := hABC' <;> rw [← eA, ← eB, ← eC] at hBA
+    · linear_combination hBA
+    · linear_combination hBA
+    · linear_combination hBA
+    · linear_combination hBA
+
+/-- `__get_qaz_value`: when the y-component of `Z·ĥ` is `−sin θ`, the qaz read off its x- and z-components completes the sample relation -/
+theorem qazValue_sound (mu eta chi phi : ℝ) (h : V3 ℝ) (hh : V3.norm h = 1) (theta : ℝ) (hct : Scalar.isSmall (Real.cos theta) = false)
+    (hy : (M3.mulVec (C04.Z mu eta chi phi) h).y = -Real.sin theta) :
+    M3.mulVec (C04.Z mu eta chi phi) h = qDir theta (qazValue mu eta chi phi h theta) := by
+  set w := M3.mulVec (C04.Z mu eta chi phi) h with hw
+  have hwn : w.x ^ 2 + w.y ^ 2 + w.z ^ 2 = 1 := by
+    have h1 := C08.norm_rot (C04.Z mu eta chi phi) (C04.isRot_Z mu eta chi phi) h
+    have h2 := C07.norm_sq w
+    rw [hw, h1, hh] at h2
+    rw [hw]; simp only [V3.dot] at h2; linear_combination (-1 : ℝ) * h2
+  -- the arguments of the atan2 are sgn·w.x and sgn·w.z
+  have hq : qazValue mu eta chi phi h theta = atan2R ((Scalar.sign (Real.cos theta) : ℝ) * w.x) ((Scalar.sign (Real.cos theta) : ℝ) * w.z) := by
+    unfold qazValue
+    rw [normalised_unit h hh]
+    simp only [rs_cos, rs_sin, rs_atan2]
+    have hx : w.x = h.z * Real.cos eta * Real.sin chi + (h.x * Real.cos chi * Real.cos eta + h.y * Real.sin eta) * Real.cos phi
+        + (h.y * Real.cos chi * Real.cos eta - h.x * Real.sin eta) * Real.sin phi := by rw [hw, Z_mulVec]; ring
+    have hz : w.z = -h.z * Real.sin chi * Real.sin eta * Real.sin mu + h.z * Real.cos chi * Real.cos mu
+        - (h.x * Real.cos mu * Real.sin chi + (h.x * Real.cos chi * Real.sin eta - h.y * Real.cos eta) * Real.sin mu) * Real.cos phi
+        - (h.y * Real.cos mu * Real.sin chi + (h.y * Real.cos chi * Real.sin eta + h.x * Real.cos eta) * Real.sin mu) * Real.sin phi := by rw [hw, Z_mulVec]; ring
+    rw [hx, hz]
+  rw [hq]
+  have hcne := not_small_ne_zero hct
+  obtain ⟨hsg, hsg2⟩ := sign_facts (Real.cos theta) hct
+  set sg := (Scalar.sign (Real.cos theta) : ℝ) with hsgdef
+  have habs : 0 < |Real.cos theta| := abs_pos.mpr hcne
+  have hsc := Real.sin_sq_add_cos_sq theta
+  have hsqabs : |Real.cos theta| ^ 2 = Real.cos theta ^ 2 := sq_abs _
+  have hcos : Real.cos theta = sg * |Real.cos theta| := by rw [← hsg]; linear_combination (-(Real.cos theta)) * hsg2
+  generalize |Real.cos theta| = A at habs hsqabs hcos hsg
+  have hR : (sg * w.z) ^ 2 + (sg * w.x) ^ 2 = A ^ 2 := by
+    rw [hsqabs]; rw [hy] at hwn
+    linear_combination (w.x ^ 2 + w.z ^ 2) * hsg2 + hwn - hsc
+  obtain ⟨hcq, hsq⟩ := atan2_cs (sg * w.z) (sg * w.x) A habs hR
+  have habsne := habs.ne'
+  ext
+  · simp only [qDir]; rw [hsq, hcos]; field_simp; linear_combination (-w.x) * hsg2
+  · simp only [qDir]; exact hy
+  · simp only [qDir]; rw [hcq, hcos]; field_simp; linear_combination (-w.z) * hsg2
+
+/-- **three sample angles given** (`_calc_three_sample`, sample part): with the fourth angle from `__get_last_sample_angle` and qaz from
+    `__get_qaz_value`, the sample relation holds exactly (the detector angles then come from `detFromQaz`, `threeSample_detector_sound`) -/
+theorem threeSample_sample_sound (free : Free) (mu eta chi phi : ℝ) (h : V3 ℝ) (hh : V3.norm h = 1) (theta : ℝ)
+    (hct : Scalar.isSmall (Real.cos theta) = false)
+    (hclip : |(lastABC free mu eta chi phi h theta).2.2 / Scalar.hypot (lastABC free mu eta chi phi h theta).1 (lastABC free mu eta chi phi h theta).2.1| ≤ 1)
+    (hgen : Scalar.isSmall (Real.arccos ((lastABC free mu eta chi phi h theta).2.2 /
+      Scalar.hypot (lastABC free mu eta chi phi h theta).1 (lastABC free mu eta chi phi h theta).2.1)) = false)
+    (l : List ℝ) (hl : lastSampleAngle free mu eta chi phi h theta = .ok l) :
+    ∀ v ∈ l, let t := assign free mu eta chi phi v
+      SampleSpec h theta (qazValue t.1 t.2.1 t.2.2.1 t.2.2.2 h theta) t := by
+  intro v hv
+  have hy := lastSampleAngle_sound free mu eta chi phi h hh theta hclip hgen l hl v hv
+  exact qazValue_sound _ _ _ _ h hh theta hct hy
 
 end
 end C01
